@@ -38,7 +38,7 @@ Monitor (every call of the real API is observed):
   own ``random.choices([], k=1)`` raises.)
 * ``b.random_sample(prob, random_state)`` with int / ``random.Random`` state:
   result is an order-preserving subsequence of the input; equal on sync,
-  threads, processes (reused spawn pool, ~1 case in 20), on recomputation of
+  threads, processes (reused spawn pool, 1 random_sample case in 40), on recomputation of
   the same collection and on rebuilding the collection with the same state.
 
 Nothing about the *distribution* of samples is demanded: the statement does
